@@ -8,19 +8,33 @@ from . import adapter, par, tlc
 ONLY = {"all": "", "alpha": ", only: alpha", "beta": ", only: beta", "both": ", only: alpha, beta"}
 
 
+def _acc(st, mod, offered):
+    """PRIVATE by default plus an explicit PUBLIC statement for every name the module offers (no change for clients)."""
+    if st.get("priv") != mod or not offered:
+        return ""
+    return "  private\n  public :: %s\n" % ", ".join(sorted(offered))
+
+
+def _pass(f, names):
+    return set(names) if f in ("all", "both") else set(names) & {f}
+
+
 def render(st):
+    vis_hub = _pass(st["hubF"], {"alpha", "beta"})
+    vis_ma = _pass(st["maF"], vis_hub)
     files = {
         "store.f90": "module store\n  implicit none\n  integer :: alpha = 1\n  integer :: beta = 2\nend module store\n",
-        "hub.f90": "module hub\n  use store%s\n  implicit none\nend module hub\n" % ONLY[st["hubF"]],
-        "ma.f90": "module ma\n  use hub%s\n  implicit none\nend module ma\n" % ONLY[st["maF"]],
+        "hub.f90": "module hub\n  use store%s\n  implicit none\n%send module hub\n" % (ONLY[st["hubF"]], _acc(st, "hub", vis_hub)),
+        "ma.f90": "module ma\n  use hub%s\n  implicit none\n%send module ma\n" % (ONLY[st["maF"]], _acc(st, "ma", vis_ma)),
         "mb.f90": "module mb\n  use hub%s\n  implicit none\nend module mb\n" % ONLY[st["mbF"]],
     }
-    uses = ["  use ma%s" % ONLY[st["pA"]], "  use mb%s" % ONLY[st["pB"]]]
+    only_a = ONLY[st["pA"]].replace("alpha", "la => alpha") if st.get("ren") else ONLY[st["pA"]]
+    uses = ["  use ma%s" % only_a, "  use mb%s" % ONLY[st["pB"]]]
     if not st["maFirst"]:
         uses.reverse()
     body = ["program main"] + uses + ["  implicit none"]
     refs = []
-    for n in ("alpha", "beta"):
+    for n in ("alpha", "beta", "la"):
         if n in st["visible"]:
             body.append("  %s = %s + 1" % (n, n))
             refs.append((n, len(body) - 1, 2))
@@ -42,9 +56,12 @@ def check(st):
             got = None
             if isinstance(r, dict) and "uri" in r:
                 got = (os.path.basename(adapter.path_from_uri(r["uri"])), r["range"]["start"]["line"])
-            exp = ("store.f90", 2 if n == "alpha" else 3)
+            exp = ("store.f90", 3 if n == "beta" else 2)
             if got != exp:
-                bad.append(({"usegraph:definition", "name:" + n, "hub:" + st["hubF"], "ma:" + st["maF"], "mb:" + st["mbF"], "p.ma:" + st["pA"], "p.mb:" + st["pB"]},
+                # the rename on the path through ma meets an unrestricted second path (use mb) to the same module: the listed
+                # finding C05-only-rename-lost-on-second-path (merged use-tree entry keeps one rename map)
+                known = {"feature:renameAndSecondPathToSameModule"} if st.get("ren") and n == "la" and st["pB"] == "all" else set()
+                bad.append((known | {"usegraph:definition", "name:" + n, "hub:" + st["hubF"], "ma:" + st["maF"], "mb:" + st["mbF"], "p.ma:" + st["pA"], "p.mb:" + st["pB"], "priv:" + str(st.get("priv")), "ren:" + str(st.get("ren"))},
                             {"name": n, "expected": exp, "observed": got, "files": files}))
     finally:
         adapter.rmws(d)
@@ -61,7 +78,9 @@ def run(ck, tier):
     states = list(tlc.dump_states("UseGraph", "UseGraph_MC.cfg", info=info))
     ck.add_tlc("UseGraph_Gen", info["result"])
     if tier == "quick":
-        states = states[::2]
+        # half of the universes, chosen by a checksum of the state (a stride would drop one value of an alternating variable)
+        import zlib
+        states = [st for st in states if zlib.crc32(repr(sorted((k, repr(v)) for k, v in st.items())).encode()) % 2 == 0]
     for i, status, val in par.pmap(check, states, item_timeout=120):
         ck.count(key=("usegraph", repr(sorted((k, repr(v)) for k, v in states[i].items()))))
         if status != "done":
